@@ -6,7 +6,7 @@ Open Scope string_scope.
 
 Definition gen_active_used : list status := [Allocated; Pipelined; Binding; Bound; Running; Releasing].
 Definition gen_active_allocated : list status := [Allocated; Pipelined; Binding; Bound; Running].
-Definition gen_alive : list status := [Pending; Allocated; Pipelined; Binding; Bound; Running].
+Definition gen_alive : list status := [Pending; Gated; Allocated; Pipelined; Binding; Bound; Running].
 Definition gen_pod_bound : list status := [Allocated; Bound; Running; Releasing].
 Definition gen_allocated_status : list status := [Allocated; Binding; Bound; Running].
 Definition gen_default_gpu_memory : Z := 100%Z.
